@@ -1107,11 +1107,11 @@ fn cmp_oracle(x: &Matrix, y: &Matrix, mx: &MM, my: &MM, tol: f64) -> Result<(), 
     let clearly_far = !same_shape || mx.d.iter().zip(&my.d).any(|(a, b)| {
         let m = a.abs().min(b.abs());
         ((a.abs() >= 1e-3 || b.abs() >= 1e-3) && (a - b).abs() > 100.0 * tol * m.max(1e-3) && (a - b).abs() > 100.0 * tol * a.abs().max(b.abs()))
-            || rd(*a, *b).map_or(false, |d| d > 4.0 * tol)
+            || rd(*a, *b).map_or(false, |d| d > tol * (1.0 + 1e-9) + 1e-300)
     });
-    let clearly_close = same_shape && mx.d.iter().zip(&my.d).all(|(a, b)| a.to_bits() == b.to_bits() || (*a == *b && a.is_finite()) || rd(*a, *b).map_or(false, |d| d <= tol / 4.0));
+    let clearly_close = same_shape && mx.d.iter().zip(&my.d).all(|(a, b)| a.to_bits() == b.to_bits() || (*a == *b && a.is_finite()) || rd(*a, *b).map_or(false, |d| d < tol * (1.0 - 1e-9)));
     if (identical || clearly_close) && !ct {
-        return Err(("comparison_wrong", format!("close_to(tol {:e}) is false for two matrices whose elements are pairwise identical or within a quarter of the tolerance", tol)));
+        return Err(("comparison_wrong", format!("close_to(tol {:e}) is false for two matrices whose elements are pairwise identical or within the tolerance", tol)));
     }
     if opposite && ct {
         return Err(("comparison_wrong_sign", format!("close_to(tol {:e}) equates values of opposite sign", tol)));
@@ -1451,7 +1451,7 @@ fn gen_op(r: &mut Sm, tr: &Tracker, weights: &[u32; 6], p_fault: f64, special: b
         _ => match r.below(4) {
             0 => Op::Predicates { m },
             1 => Op::EqClose { a: m, b: r.below(tr.ms.len().max(1) as u64) as usize, tol: Fb(*r.pick(&[1e-6, 1e-9, 1e-12, 0.0])) },
-            _ => Op::CmpPerturbed { m, kind: r.below(10) as u8, k: r.usize(0, 63), delta: Fb(*r.pick(&[1e-3, 1e-2, 0.5, -1e-3, 1e-13])), tol: Fb(*r.pick(&[1e-6, 1e-9, 0.0, 0.5, 2.0, 10.0])) },
+            _ => Op::CmpPerturbed { m, kind: r.below(10) as u8, k: r.usize(0, 63), delta: Fb(*r.pick(&[1e-3, 1e-2, 0.5, -1e-3, 1e-13, 0.6, 0.8, 3.0])), tol: Fb(*r.pick(&[1e-6, 1e-9, 0.0, 0.5, 2.0, 10.0])) },
         },
     }
 }
